@@ -80,6 +80,9 @@ pub struct Writer {
     pub last_xref: Option<usize>,
     pub crypt: Option<Encryptor>,
     pub tape: Tape,
+    /// a second, independent choice tape for layout decisions (so that they are not starved when the
+    /// spelling of values has used up the first one)
+    pub layout: Tape,
     /// every object written so far: final truth (num -> entry), newest wins
     pub truth: BTreeMap<u64, XEntry>,
     /// offsets (relative to base) of every xref section written
@@ -93,14 +96,25 @@ impl Writer {
         let base = buf.len();
         buf.extend_from_slice(format!("%PDF-{}\n", version).as_bytes());
         buf.extend_from_slice(b"%\xE2\xE3\xCF\xD3\n");
-        Writer { buf, base, pending: BTreeMap::new(), last_xref: None, crypt: None, tape: Tape::new(&[]), truth: BTreeMap::new(), xref_offsets: Vec::new(), eol: b"\n" }
+        Writer { buf, base, pending: BTreeMap::new(), last_xref: None, crypt: None, tape: Tape::new(&[]), layout: Tape::new(&[]), truth: BTreeMap::new(), xref_offsets: Vec::new(), eol: b"\n" }
     }
     /// continue an existing file (incremental update written by the harness)
     pub fn append_to(existing: Vec<u8>, base: usize, last_xref: usize) -> Writer {
-        Writer { buf: existing, base, pending: BTreeMap::new(), last_xref: Some(last_xref), crypt: None, tape: Tape::new(&[]), truth: BTreeMap::new(), xref_offsets: Vec::new(), eol: b"\n" }
+        Writer { buf: existing, base, pending: BTreeMap::new(), last_xref: Some(last_xref), crypt: None, tape: Tape::new(&[]), layout: Tape::new(&[]), truth: BTreeMap::new(), xref_offsets: Vec::new(), eol: b"\n" }
     }
     pub fn set_tape(&mut self, data: &[u8]) {
         self.tape = Tape::new(data);
+        let mut rev: Vec<u8> = data.iter().rev().cloned().collect();
+        // mix so that short tapes still give varied layout choices
+        for (i, b) in rev.iter_mut().enumerate() {
+            *b = b.wrapping_mul(31).wrapping_add((i as u8).wrapping_mul(7));
+        }
+        let n = rev.len();
+        let mut ext = rev.clone();
+        for k in 0..32 {
+            ext.push(if n == 0 { 0 } else { rev[k % n].wrapping_mul(13).wrapping_add(k as u8) });
+        }
+        self.layout = Tape::new(&ext);
     }
     pub fn off(&self) -> usize {
         self.buf.len() - self.base
@@ -184,8 +198,16 @@ impl Writer {
             offs.push(body.len());
             body.extend_from_slice(t);
             if i + 1 < texts.len() {
-                // members separated by white-space
-                body.push([b' ', b'\n', b'\r'][self.tape.choose(3)]);
+                // members are separated by white-space, which may be omitted where a delimiter
+                // separates the two tokens anyway (e.g. "/A/B", "12<<...>>", "(a)(b)")
+                let prev_regular = t.last().map(|&b| super::printer::is_regular(b) || b == b'/').unwrap_or(false);
+                let next_delim = texts[i + 1].first().map(|&b| super::printer::is_delim(b)).unwrap_or(false);
+                let may_elide = !prev_regular || next_delim;
+                if may_elide && self.layout.opt("objstm-members-abut", 110) {
+                    // nothing
+                } else {
+                    body.push([b' ', b'\n', b'\r'][self.tape.choose(3)]);
+                }
             } else if trailing_ws {
                 body.push(b'\n');
             }
@@ -300,10 +322,18 @@ impl Writer {
             }
             k
         };
-        let (w1, mut w2, mut w3) = (1usize, bytes_for(max2), bytes_for(max3));
+        let (mut w1, mut w2, mut w3) = (1usize, bytes_for(max2), bytes_for(max3));
+        // a zero width means the field is absent and its default applies: type 1 (in use), third field 0
+        let all_in_use = subs.iter().all(|(_, es)| es.iter().all(|e| matches!(e, XEntry::InUse { .. })));
+        if all_in_use && self.layout.opt("xref-w-type-omitted", 128) {
+            w1 = 0;
+        }
+        let third_all_zero = max3 == 0;
         if wide {
             w2 = (w2 + 1 + self.tape.choose(3)).min(8);
             w3 = (w3 + self.tape.choose(2)).min(8);
+        } else if third_all_zero && self.layout.opt("xref-w-third-omitted", 100) {
+            w3 = 0;
         }
         let mut data = Vec::new();
         let mut index = Vec::new();
@@ -316,7 +346,9 @@ impl Writer {
                     XEntry::InUse { off, gen } => (1, off as u64, gen),
                     XEntry::Compressed { stm, idx } => (2, stm, idx as u64),
                 };
-                data.push(t);
+                if w1 == 1 {
+                    data.push(t);
+                }
                 data.extend_from_slice(&a.to_be_bytes()[8 - w2..]);
                 data.extend_from_slice(&b.to_be_bytes()[8 - w3..]);
             }
